@@ -488,8 +488,22 @@ func fmtBinary(run *ev.Run, prop string) (int64, int64) {
 		}
 		base = append(base, sb.String())
 	}
+	// a free comment and an undocumented task after 0..600 declarations (anything done per block of nodes shows at some count)
+	var plain []string
+	for pad := 0; pad <= 600; pad++ {
+		var sb strings.Builder
+		for i := 0; i < pad; i++ {
+			fmt.Fprintf(&sb, "V%c%c%c := \"v\"\n", 'a'+i/676%26, 'a'+i/26%26, 'a'+i%26)
+		}
+		sb.WriteString("# Section: helper tasks\n#\ntask helper() {\n    echo helper\n}\n\n# Build it\ntask build() {\n    echo build\n}\n")
+		plain = append(plain, sb.String())
+	}
 	var texts []string
 	seen := map[string]bool{}
+	for _, b := range plain {
+		seen[b] = true
+		texts = append(texts, b)
+	}
 	for _, b := range base {
 		for _, v := range []string{b, strings.ReplaceAll(b, "\n    ", "\n\t"), strings.ReplaceAll(b, "\n", "\r\n"), strings.ReplaceAll(strings.ReplaceAll(b, "\n    ", "\n\t"), "\n", "\r\n")} {
 			if !seen[v] {
